@@ -58,3 +58,19 @@ Theorem C14_second_projection_refused : forall qfm cbrt (eps4 : R) (s : @traj R)
   @step R _ qfm cbrt eps4 s2 (Project pl') = None.
 Proof. exact second_projection_refused. Qed.
 Print Assumptions C14_second_projection_refused.
+
+(* ---- positions under projection (added after every property had a check): the position map is a contraction - no step
+   gets longer, the path length never grows - and fixes every position that already lies in the plane ---- *)
+Theorem C14_projection_never_lengthens_a_step : forall pl (a b : V3R),
+  norm (vsub (@proj_pos R _ pl a) (proj_pos pl b)) <= norm (vsub a b).
+Proof. exact proj_pos_contraction. Qed.
+Print Assumptions C14_projection_never_lengthens_a_step.
+Theorem C14_projection_never_lengthens_the_path : forall pl (xs : list V3R),
+  Forall2 Rle (@step_lengths R _ (map (proj_pos pl) xs)) (@step_lengths R _ xs) /\
+  @path_length R _ (map (proj_pos pl) xs) <= @path_length R _ xs.
+Proof. intros pl xs. split; [apply step_lengths_projection_le|apply path_length_projection_le]. Qed.
+Print Assumptions C14_projection_never_lengthens_the_path.
+Theorem C14_positions_in_the_plane_unchanged : forall pl (v : V3R),
+  match pl with XY => vz v = 0 | XZ => vy v = 0 | YZ => vx v = 0 end -> @proj_pos R _ pl v = v.
+Proof. exact proj_pos_fixes_in_plane. Qed.
+Print Assumptions C14_positions_in_the_plane_unchanged.
